@@ -284,6 +284,11 @@ func aliasesOf(src ssa.Value) map[ssa.Value]bool {
 				nv = x
 			case *ssa.MakeInterface:
 				nv = x
+			case *ssa.Call:
+				// append(alias[:n], ...) writes into and returns the same backing array while it fits
+				if core.CalleeID(x) == "builtin.append" && len(x.Call.Args) > 0 && x.Call.Args[0] == v {
+					nv = x
+				}
 			case *ssa.Store:
 				if x.Val == v {
 					if a, ok := x.Addr.(*ssa.Alloc); ok {
@@ -327,8 +332,11 @@ func copiedFrom(v ssa.Value, isSrc func(ssa.Value) bool) bool {
 			return isSrc(x.Call.Args[0])
 		}
 		if id == "builtin.append" {
+			if isSrc(x.Call.Args[0]) {
+				return false // appending onto (a prefix of) the source re-uses its memory
+			}
 			if isSrc(x.Call.Args[1]) {
-				return true
+				return freshOrNil(x.Call.Args[0])
 			}
 			return copiedFrom(x.Call.Args[0], isSrc)
 		}
@@ -337,6 +345,29 @@ func copiedFrom(v ssa.Value, isSrc func(ssa.Value) bool) bool {
 			if copiedFrom(e, isSrc) {
 				return true
 			}
+		}
+	}
+	return false
+}
+
+// freshOrNil: v is nil, a slice made in this function, or an empty literal: append on it
+// allocates (or fills function-owned memory).
+func freshOrNil(v ssa.Value) bool {
+	v = core.Unwrap(v)
+	if core.IsNilConst(v) {
+		return true
+	}
+	switch x := v.(type) {
+	case *ssa.MakeSlice:
+		return true
+	case *ssa.Slice:
+		if _, ok := x.X.(*ssa.Alloc); ok {
+			return true // slice of a local array literal
+		}
+		return freshOrNil(x.X)
+	case *ssa.Call:
+		if core.CalleeID(x) == "builtin.append" {
+			return freshOrNil(x.Call.Args[0])
 		}
 	}
 	return false
